@@ -1,11 +1,13 @@
-(* C17 — Equals agrees with observable behaviour. Statements only (in-memory variants, after the
-   repairs listed in known-findings.txt): reflexive on every state, sound (true implies equal
-   parameters and equal payload, hence identical answers to every query), total on
-   well-formed states of any dimensions (no panic), symmetric where stated. *)
+(* C17 — Equals agrees with observable behaviour. Statements only (after the repairs listed in
+   known-findings.txt): reflexive on every state, sound (true implies equal parameters and equal
+   payload, hence identical answers to every query), total on well-formed states of any
+   dimensions (no panic), symmetric where stated — for the five in-memory structures and, on the
+   Redis models, for all five Redis-backed ones (Count-Min and HyperLogLog as exact
+   characterisations through the refinements; Bloom, cuckoo and Top-K as soundness). *)
 From GX.Model Require Import Base CMS Bloom HLL Cuckoo Heap TopK Codec Persist.
 From GX.Proofs Require Import ListLemmas CodecProofs EqualsProofs.
-From GX.Model Require Import Redis RedisCMS RedisHLL RedisCuckoo.
-From GX.Proofs Require Import RedisCMSRefine RedisHLLRefine RedisEqualsProofs.
+From GX.Model Require Import Redis RedisCMS RedisHLL RedisCuckoo RedisBloom RedisTopK.
+From GX.Proofs Require Import RedisCMSRefine RedisHLLRefine RedisEqualsProofs RedisEqualsProofs2.
 
 Theorem C17_bloom_sound : forall a b, bloom_equals a b = true ->
   b_size a = b_size b /\ b_k a = b_k b /\ b_bits a = b_bits b.
@@ -73,6 +75,30 @@ Theorem C17_redis_cuckoo_sound : forall s a b,
   forall i, i < rq_size a -> r_list s (bucket_key (rq_key a) i) = r_list s (bucket_key (rq_key b) i).
 Proof. exact rck_equals_sound. Qed.
 
+(* Redis-backed Bloom filter: true means equal parameters and the identical Redis string, hence
+   the same answer to every Lookup *)
+Theorem C17_redis_bloom_sound : forall s a b, rbloom_equals s a b = Ok true ->
+  rb_size a = rb_size b /\ rb_k a = rb_k b /\
+  exists v, r_get s (rb_key a) = Some v /\ r_get s (rb_key b) = Some v.
+Proof. exact rbloom_equals_sound. Qed.
+Theorem C17_redis_bloom_same_answers : forall bpos s a b x, rbloom_equals s a b = Ok true ->
+  rbloom_lookup bpos s a x = rbloom_lookup bpos s b x.
+Proof. exact rbloom_equals_same_answers. Qed.
+Theorem C17_redis_bloom_refl : forall s a v, rb_nil a = false -> r_get s (rb_key a) = Some v -> rbloom_equals s a a = Ok true.
+Proof. exact rbloom_equals_refl. Qed.
+
+(* Redis-backed Top-K: true means equal parameters, sketches that pass their comparison and - for
+   sorted sets within the size bound k, which the invariant of C04 guarantees - identical sorted
+   sets, hence identical Values() *)
+Theorem C17_redis_topk_sound : forall s a b, rtopk_equals s a b = true ->
+  (N.of_nat (length (r_zset s (rt_heap a))) <= rt_k a) -> (N.of_nat (length (r_zset s (rt_heap b))) <= rt_k a) ->
+  rt_k a = rt_k b /\ rt_acc a = rt_acc b /\ rt_er a = rt_er b /\
+  rcms_equals s (rt_sketch a) (rt_sketch b) = true /\
+  r_zset s (rt_heap a) = r_zset s (rt_heap b) /\ rtopk_values s a = rtopk_values s b.
+Proof. exact rtopk_equals_sound. Qed.
+Theorem C17_redis_topk_refl : forall s a, rcms_equals s (rt_sketch a) (rt_sketch a) = true -> rtopk_equals s a a = true.
+Proof. exact rtopk_equals_refl. Qed.
+
 Print Assumptions C17_bloom_sound.
 Print Assumptions C17_bloom_sym.
 Print Assumptions C17_bloom_queries_agree.
@@ -85,3 +111,5 @@ Print Assumptions C17_topk_sound.
 Print Assumptions C17_redis_cms_equals_iff.
 Print Assumptions C17_redis_hll_equals_iff.
 Print Assumptions C17_redis_cuckoo_sound.
+Print Assumptions C17_redis_bloom_same_answers.
+Print Assumptions C17_redis_topk_sound.
